@@ -5,6 +5,6 @@ cd "$(dirname "$0")"
 mkdir -p _out
 cd _out
 coqc -Q ../../coq/Base Sim -Q ../../coq/Model Sim -Q ../../coq/Gen Sim ../../coq/Extract/Extract.v >/dev/null
-cp ../util.ml ../kdriver.ml ../sdriver.ml ../pdriver.ml ../cdriver.ml ../main.ml .
-ocamlfind ocamlopt -O3 -w -a -o simmodel simmodel.mli simmodel.ml util.ml kdriver.ml sdriver.ml pdriver.ml cdriver.ml main.ml 2>/dev/null || \
-ocamlfind ocamlopt -w -a -o simmodel simmodel.mli simmodel.ml util.ml kdriver.ml sdriver.ml pdriver.ml cdriver.ml main.ml
+cp ../util.ml ../kdriver.ml ../pdriver.ml ../sdriver.ml ../cdriver.ml ../main.ml .
+ocamlfind ocamlopt -O3 -w -a -o simmodel simmodel.mli simmodel.ml util.ml kdriver.ml pdriver.ml sdriver.ml cdriver.ml main.ml 2>/dev/null || \
+ocamlfind ocamlopt -w -a -o simmodel simmodel.mli simmodel.ml util.ml kdriver.ml pdriver.ml sdriver.ml cdriver.ml main.ml
